@@ -56,7 +56,7 @@ def describe(e):
 
 def main(chk):
     core.setup_repo_path()
-    maxset = 2 if chk.tier == "quick" else 3
+    maxset = 2 if chk.tier == "quick" else 4
     cfg = {"constants": {"MaxSet": str(maxset), "Types": tla_set(TYPES)},
            "invariants": ["OrderIndependent", "RefusedCleanly"]}
     res = chk.model_check("MC_C11", cfg, dump=True)
